@@ -236,6 +236,15 @@ def conformance(rep: Report, ctx, pid: str, classes: dict[str, int], *, selftest
         scs = [d["detail"]["scenario"]]
     results = run_scenarios(scs)
     traces = [r[0] for r in results]
+    # a run that died before its Config event cannot be judged by the trace spec: it is
+    # reported as what it is (the client could not even be started)
+    for sc_, (tr_, inf_) in zip(scs, results):
+        if not tr_ or tr_[0].get("e") != "Config":
+            rep.violations.append(Violation(f"{pid}:reject:NoStart:{(tr_[-1].get('err') if tr_ else '')}",
+                                            {"scenario": sc_, "info": inf_, "trace": tr_[-3:]}))
+    keep_ = [i for i, t in enumerate(traces) if t and t[0].get("e") == "Config"]
+    scs = [scs[i] for i in keep_]
+    traces = [traces[i] for i in keep_]
     ver, st = tlc.validate("Trace_ProducerCore", "Trace_ProducerCore.cfg", traces,
                            shard=max(10, min(150, len(traces) // 12 + 1)), jobs=12)
     rep.traces += len(traces)
